@@ -454,18 +454,59 @@ impl<'a> Binder<'a> {
                     rows.push(exprs?);
                 }
 
-                // Infer schema from first row
+                // Every row must have the width of the first one.
+                if let Some(first_row) = rows.first() {
+                    if let Some(bad) = rows.iter().position(|r| r.len() != first_row.len()) {
+                        return Err(QueryError::Bind(format!(
+                            "VALUES lists must all be the same length (row {} has {} values, row 1 has {})",
+                            bad + 1,
+                            rows[bad].len(),
+                            first_row.len()
+                        )));
+                    }
+                }
+
+                // Infer each column's type from ALL rows: NULL literals carry
+                // no type, BIGINT and DOUBLE in one column widen to DOUBLE.
+                // (The first row alone mistypes `VALUES (NULL), (1)` and
+                // `VALUES (1), (1.5)`.)
                 let schema = if let Some(first_row) = rows.first() {
-                    let fields: Vec<SchemaField> = first_row
-                        .iter()
-                        .enumerate()
-                        .map(|(i, e)| {
-                            let dt = e
+                    let mut fields: Vec<SchemaField> = Vec::with_capacity(first_row.len());
+                    for i in 0..first_row.len() {
+                        let mut dt: Option<ArrowDataType> = None;
+                        for row in &rows {
+                            let t = row[i]
                                 .data_type(&PlanSchema::empty())
                                 .unwrap_or(ArrowDataType::Utf8);
-                            SchemaField::new(format!("column{}", i), dt)
-                        })
-                        .collect();
+                            if t == ArrowDataType::Null {
+                                continue;
+                            }
+                            dt = Some(match dt {
+                                None => t,
+                                Some(cur) if cur == t => cur,
+                                Some(cur)
+                                    if (cur.is_numeric() && t.is_numeric())
+                                        && (cur.is_floating() || t.is_floating()) =>
+                                {
+                                    ArrowDataType::Float64
+                                }
+                                Some(cur) if cur.is_integer() && t.is_integer() => {
+                                    ArrowDataType::Int64
+                                }
+                                Some(cur) => {
+                                    return Err(QueryError::Bind(format!(
+                                        "VALUES column {} mixes incompatible types {cur:?} and {t:?}",
+                                        i + 1
+                                    )))
+                                }
+                            });
+                        }
+                        // a column of NULLs only has no type of its own
+                        fields.push(SchemaField::new(
+                            format!("column{}", i),
+                            dt.unwrap_or(ArrowDataType::Utf8),
+                        ));
+                    }
                     PlanSchema::new(fields)
                 } else {
                     PlanSchema::empty()
